@@ -97,13 +97,13 @@ def run_case(case):
                 E = [ops.eval_matrix(S, ops.wrap(q + io * dz * s / R0, 0.0, tp)) for s in sh]
 
                 def ref(phi):
-                    out = np.zeros_like(phi)
+                    out = np.zeros(phi.shape, dtype=float)
                     for k in range(nz):
                         for s, cc, Es in zip(sh, cf, E):
                             out[k, :] += cc * (Es @ phi[(k + s) % nz, :])
                     return out * bz / dz
                 cplx = (dense * (1 + 0.5j) + 0.25j)
-                datas = [('const', np.full((nz, nq), 1.75)), ('dense', dense), ('dense-again', dense), ('dense-third', dense), ('strided-real-view', np.real(cplx)), ('tiny', 1e-11 * dense)]      # the operator is linear in phi
+                datas = [('const', np.full((nz, nq), 1.75)), ('dense', dense), ('dense-again', dense), ('dense-third', dense), ('strided-real-view', np.real(cplx)), ('tiny', 1e-11 * dense), ('integer-typed', np.rint(7 * dense).astype(np.int64))]      # the operator is linear in phi; the potential may be given as an integer array
                 if (p, rank) in ((1, 0), (3, 2)) and i == int(lay.shape[0]) - 1:
                     for a, b in itertools.product(range(nz), range(nq)):
                         e = np.zeros((nz, nq))
